@@ -33,8 +33,8 @@ fn denied(name: &str) -> bool {
 }
 
 /// value pool; `@array` etc. are replaced by live handles of a prepared session
-const POOL: [&str; 18] = [
-    "a=b", "", "a", "a b", "é😀", "-1", "0", "1", "2.5", "99999999999999999999", "@array", "@map", "@set", "@bytes", "@released", "-r", "a\nb", "--FLAG",
+const POOL: [&str; 21] = [
+    "9223372036854775807", "@selfarray", "@selfmap", "a=b", "", "a", "a b", "é😀", "-1", "0", "1", "2.5", "99999999999999999999", "@array", "@map", "@set", "@bytes", "@released", "-r", "a\nb", "--FLAG",
 ];
 const FLAGS: [&str; 4] = ["--copy", "--prefix", "--collection", "--file"];
 
@@ -45,6 +45,9 @@ struct Prepared {
     set: String,
     bytes: String,
     released: String,
+    /// an array that contains its own handle, and a map whose child array points back to the map
+    selfarray: String,
+    selfmap: String,
 }
 
 fn prepare() -> Prepared {
@@ -60,9 +63,14 @@ fn prepare() -> Prepared {
     let bytes = get(s.call("string_to_bytes", &["xyz"]));
     let released = get(s.call("array", &["gone"]));
     s.call("release", &[&released]);
+    let selfarray = get(s.call("array", &["first"]));
+    s.call("array_push", &[&selfarray, &selfarray]);
+    let selfmap = get(s.call("map", &[]));
+    let child = get(s.call("array", &[&selfmap]));
+    s.call("map_put", &[&selfmap, "children", &child]);
     s.variables.insert("a".into(), "value".into());
     s.variables.insert("scope::x".into(), "1".into());
-    Prepared { s, array, map, set, bytes, released }
+    Prepared { s, array, map, set, bytes, released, selfarray, selfmap }
 }
 
 fn resolve(p: &Prepared, v: &str, flag: &str) -> String {
@@ -72,6 +80,8 @@ fn resolve(p: &Prepared, v: &str, flag: &str) -> String {
         "@set" => p.set.clone(),
         "@bytes" => p.bytes.clone(),
         "@released" => p.released.clone(),
+        "@selfarray" => p.selfarray.clone(),
+        "@selfmap" => p.selfmap.clone(),
         "--FLAG" => flag.to_string(),
         o => o.to_string(),
     }
@@ -84,8 +94,9 @@ fn class_of_arg(v: &str) -> &'static str {
         "a=b" => "contains-equals",
         "é😀" => "multi-byte",
         "-1" => "negative",
-        "99999999999999999999" => "huge-number",
+        "99999999999999999999" | "9223372036854775807" => "huge-number",
         "2.5" => "decimal",
+        "@selfarray" | "@selfmap" => "self-containing-collection",
         x if x.starts_with('@') => "handle",
         x if x.starts_with('-') => "flag",
         "0" | "1" => "small-number",
@@ -95,7 +106,7 @@ fn class_of_arg(v: &str) -> &'static str {
 
 pub fn bounds(tier: Tier) -> Value {
     match tier {
-        Tier::Quick => json!({"arity": 2, "pool": POOL.len(), "flag_passes": 1, "script_lines": 3, "script_line_pool": SCRIPT_LINES.len()}),
+        Tier::Quick => json!({"arity": 2, "pool": POOL.len(), "flag_passes": 4, "script_lines": 3, "script_line_pool": SCRIPT_LINES.len()}),
         Tier::Thorough => json!({"arity": 3, "pool": POOL.len(), "flag_passes": 4, "script_lines": 4, "script_line_pool": SCRIPT_LINES.len()}),
     }
 }
@@ -184,7 +195,7 @@ pub fn worker(w: &mut Worker) {
 
     let names: Vec<String> = sdk_context().commands.get_all_command_names().into_iter().filter(|n| !denied(n)).collect();
     let arity = tier.pick(2usize, 3usize);
-    let flag_passes = tier.pick(1usize, 4usize);
+    let flag_passes = 4usize;
 
     // (a) every command x every argument tuple
     for name in &names {
@@ -352,8 +363,9 @@ pub fn replay(case: &Value) -> Result<String, String> {
 pub fn crash_sig(case: &Value, kind: &str) -> String {
     match case["kind"].as_str().unwrap_or("") {
         "command" => {
-            let classes: Vec<&str> = case["args"].as_array().map(|a| a.iter().map(|v| class_of_arg(v.as_str().unwrap_or(""))).collect()).unwrap_or_default();
-            format!("{}:{}:{}", kind, case["command"].as_str().unwrap_or("?"), classes.join(","))
+            // identified by the command and the class of its first argument
+            let first = case["args"].as_array().and_then(|a| a.first()).map(|v| class_of_arg(v.as_str().unwrap_or(""))).unwrap_or("no-arguments");
+            format!("{}:{}:{}", kind, case["command"].as_str().unwrap_or("?"), first)
         }
         "include-cycle" => format!("{}:include-cycle", kind),
         "script" => format!("{}:script", kind),
@@ -361,7 +373,7 @@ pub fn crash_sig(case: &Value, kind: &str) -> String {
     }
 }
 
-pub const RULE: &str = "(a) every registered command of the standard library (discovered at run time; excluded: read, sleep, exec, spawn, exit, watchdog, everything under std::net, test_directory/test_file, cd, temp_file/temp_dir) x every argument tuple up to the arity bound from a 17-value pool {empty, a, 'a b', multi-byte, -1, 0, 1, 2.5, 20-digit number, live array/map/set/byte-array handle, released handle, -r, text with a line break, a flag (--copy/--prefix/--collection/--file)}, each on a freshly prepared context in a scratch working directory; (b) 15 two-step histories (use after release, push/pop --copy of undefined and repeated names, removed or shadowed commands used by library scripts); (c) every script of up to n lines over 24 awkward lines (unmatched end/else/elseif/return, fn without name or end, for without array, goto to a missing label, goto loops, calls of undefined functions, ...) run with every command counted and the halt flag raised after 400 command entries; (d) a file that includes itself and a two-file include cycle. Oracle: control returns with Ok or Err; a panic is caught and reported; an abort (stack overflow) or a hang (no return within 4 s) kills the worker process, is pinned to the case in flight by the supervisor and reported";
+pub const RULE: &str = "(a) every registered command of the standard library (discovered at run time; excluded: read, sleep, exec, spawn, exit, watchdog, everything under std::net, test_directory/test_file, cd, temp_file/temp_dir) x every argument tuple up to the arity bound from a 21-value pool {empty, a, 'a b', multi-byte, -1, 0, 1, 2.5, 20-digit number, i64::MAX, live array/map/set/byte-array handle, an array containing its own handle, a map whose child array points back to it, released handle, -r, text with a line break, a flag (--copy/--prefix/--collection/--file)}, each on a freshly prepared context in a scratch working directory; (b) 15 two-step histories (use after release, push/pop --copy of undefined and repeated names, removed or shadowed commands used by library scripts); (c) every script of up to n lines over 24 awkward lines (unmatched end/else/elseif/return, fn without name or end, for without array, goto to a missing label, goto loops, calls of undefined functions, ...) run with every command counted and the halt flag raised after 400 command entries; (d) a file that includes itself and a two-file include cycle. Oracle: control returns with Ok or Err; a panic is caught and reported; an abort (stack overflow) or a hang (no return within 4 s) kills the worker process, is pinned to the case in flight by the supervisor and reported";
 pub const ASSUMPTIONS: &[&str] = &["values that would request huge allocations are not in the pool (allocation failure aborts by design of Rust)", "loop constructs are allowed to loop: they are ended through the halt flag, which is the embedder's documented way"];
 pub const EXHAUSTIVE: bool = true;
 pub const WALL_CAP_S: (u64, u64) = (58, 1700);
